@@ -160,7 +160,7 @@ def run_shard(ctx, shard):
     circles = ctx.extra['circles']
     for i in range(shard['n']):
         case = {'scale': rng.choice([8.0, 8.0, 1.0, 0.5, 20.0])}
-        kind = rng.choice(['box', 'rbox', 'circle', 'nested', 'outside', 'legend_only', 'two', 'multi', 'circle_in_box', 'staggered'])
+        kind = rng.choice(['box', 'rbox', 'circle', 'nested', 'outside', 'legend_only', 'two', 'multi', 'circle_in_box', 'staggered', 'ubox'])
         tags = rng.sample(NAMES, rng.randint(1, 3))
         tag = '{' + ','.join(tags) + '}'
         other = rng.choice(['', 'hi', 'p q', 'label'])
@@ -238,6 +238,18 @@ def run_shard(ctx, shard):
             rows = [x + '  ' + y for x, y in zip(a, b)]
             off = len(a[0]) + 2
             case.update(body=rows, shapes=[('rect', (0, 0, len(tag) + 3, 2), tags), ('rect', (off, 0, len(t2[0]) + 5, 2), t2)], absent=['{'], present=[], kind=kind)
+        elif kind == 'ubox':
+            # a box whose top and bottom edges are drawn with underscores: the top edge runs along the upper edge of the
+            # first interior row; the tag stands on that row or on a lower one
+            inner = ' ' * rng.randint(0, 2) + tag
+            w = len(inner) + rng.randint(0, 4)
+            h = rng.randint(1, 3)
+            row = rng.randrange(h)
+            rows = [' ' + '_' * w]
+            for y in range(h):
+                rows.append('|' + ((inner + ' ' * (w - len(inner))) if y == row else ' ' * w) + '|')
+            rows.append('|' + '_' * w + '|')
+            case.update(body=rows, shapes=[('rect', (0, F(1, 2), w + 1, h + 1), tags)], absent=[tag], present=[], kind=kind)
         elif kind == 'staggered':
             # a box with caption rows glued on top of it (caption and box are one group that starts at the caption)
             # and, to its right, a box that starts higher up: its tag lies above the top border of the first box
